@@ -1,6 +1,7 @@
 package main
 
 import (
+	"sort"
 	"encoding/json"
 	"fmt"
 	"strings"
@@ -108,7 +109,7 @@ func lastRowArgs(src string) []string {
 
 func init() {
 	register(&Check{ID: "C19", Title: "config file names and splitting do not matter", Replay: cfgReplay("cfg-files"), Run: func(c *CheckCtx) {
-		c.rule = "pairs of configuration directories with the same declarations: (a) the shipped files under random new names (different glob/load order); (b) generated classes (extends chains, overloads, methods named like a parent's) written one file per class vs split over 2-4 files with random names; programs: corpus programs (with their recorded flags) for (a), programs calling every generated method with fitting and non-fitting arguments for (b); modes plain, -i, --suggest, --llm-define --class=. Oracle: byte-identical output. distinct_nontrivial = distinct (pair, program, mode) with non-empty output"
+		c.rule = "pairs of configuration directories with the same declarations: (a) the shipped files under random new names (different glob/load order); (b) generated classes (extends chains, overloads, methods named like a parent's or like Object#to_s/inspect) written one file per class vs split over 2-4 files with random names, \"extends\" repeated in every part or written in one part only; programs: corpus programs (with their recorded flags) for (a), programs calling every generated method with fitting and non-fitting arguments for (b); modes plain, -i, --suggest, --llm-define --class=. Oracle: byte-identical output. distinct_nontrivial = distinct (pair, program, mode) with non-empty output"
 		c.assumptions = []string{"one serve worker (or one fresh process) per configuration directory; candidates are confirmed on the plain binary"}
 		r := c.RNG.Sub(19)
 		items := Corpus()
@@ -150,10 +151,21 @@ func init() {
 						byName[cl.Methods[i].Name] = assign[i]
 					}
 				}
+				// "extends" repeated in every part, or written in one part only
+				extendsPart := -1
+				if len(cl.Extends) > 0 && r.Bool() {
+					extendsPart = r.Intn(parts)
+				}
 				for pi := 0; pi < parts; pi++ {
 					pi := pi
 					name := fmt.Sprintf("%c%c_%s_%d.json", 'a'+byte(r.Intn(26)), 'a'+byte(r.Intn(26)), strings.ToLower(cl.Name), pi)
-					split[name] = cl.toJSON(Notation{}, r, func(i int) bool { return assign[i] == pi })
+					part := cl
+					if extendsPart >= 0 && pi != extendsPart {
+						cp := *cl
+						cp.Extends = nil
+						part = &cp
+					}
+					split[name] = part.toJSON(Notation{}, r, func(i int) bool { return assign[i] == pi })
 				}
 				if len(cl.Extends) > 0 && feat == "split" {
 					feat = "split+extends"
@@ -176,7 +188,7 @@ func init() {
 	}})
 
 	register(&Check{ID: "C20", Title: "declarations for unmentioned classes do not matter", Replay: cfgReplay("cfg-extra"), Run: func(c *CheckCtx) {
-		c.rule = "pairs (configuration, configuration + extra files declaring classes the program never mentions): extra classes in frame Builtin with fresh names, namespaced classes in other frames (Frame::Name written as frame+class and as class \"Frame::Name\"), and classes in another frame that reuse the short name of a user class of the program; programs: corpus programs and generated programs with user classes; modes plain and -i. Oracle: byte-identical output. distinct_nontrivial = distinct (pair, program, mode) with non-empty output"
+		c.rule = "pairs (configuration, configuration + extra files declaring classes the program never mentions): extra classes in frame Builtin with fresh names, namespaced classes in other frames (Frame::Name written as frame+class and as class \"Frame::Name\"), classes in another frame that reuse the short name of a user class of the program (also of a superclass the program references before defining it), and classes in another frame that reuse the short name of a core class (String, Array, ...) and redeclare its methods with other signatures (loaded before or after the core file); programs: corpus programs, generated programs with user classes, forward-superclass programs, calls of the redeclared core methods on literals; modes plain and -i. Oracle: byte-identical output. distinct_nontrivial = distinct (pair, program, mode) with non-empty output"
 		c.assumptions = []string{"extra class names are checked not to occur in the program text (except the deliberately reused short names, which live in another frame)"}
 		r := c.RNG.Sub(20)
 		items := Corpus()
@@ -243,6 +255,69 @@ func init() {
 				jobs = append(jobs, &cfgCase{BSpec: CfgSpec{Extra: ex}, Source: pg.src, Argv: pg.argv, Kind: "extra-classes", Feature: feat})
 			}
 		}
+		// forward-referenced superclasses (subclass above its superclass, nested class
+		// inheriting from the enclosing class) with a configured class of the
+		// superclass's short name in another frame
+		for k := 0; k < c.N(20, 300); k++ {
+			src, super := genForwardRefProgram(r)
+			fr := Pick(r, []string{"Extlib", "Vendor", "Archive"})
+			gc := &GClass{Name: super, Methods: []*GMethod{{Name: "zzext", Ret: []string{"Int"}}, {Name: "new", Static: true, Ret: []string{"Int"}}}}
+			body := gc.toJSON(Notation{}, r, nil)
+			if r.Bool() {
+				body = strings.Replace(body, `"frame": "Builtin"`, `"frame": "`+fr+`"`, 1)
+			} else {
+				body = strings.Replace(body, `"class": "`+super+`"`, `"class": "`+fr+`::`+super+`"`, 1)
+			}
+			ex := map[string]string{fmt.Sprintf("%c%c_%s.json", 'a'+byte(r.Intn(26)), 'a'+byte(r.Intn(26)), strings.ToLower(super)): body}
+			jobs = append(jobs, &cfgCase{BSpec: CfgSpec{Extra: ex}, Source: src, Argv: Pick(r, [][]string{{}, {"-i"}}), Kind: "extra-classes", Feature: "forward-superclass+reused-short-name"})
+		}
+		// a class in another frame that reuses the short name of a CORE class and
+		// redeclares one of its methods with another signature
+		if model, err := BuildModel(ShippedConfig()); err == nil {
+			core := []struct{ class, lit string }{{"String", "\"abc\""}, {"Array", "[1, 2]"}, {"Integer", "5"}, {"Hash", "{a: 1}"}, {"Float", "2.5"}, {"Symbol", ":sym"}}
+			for k := 0; k < c.N(24, 300); k++ {
+				cc := Pick(r, core)
+				mc := model.Classes["Builtin::"+cc.class]
+				if mc == nil {
+					continue
+				}
+				var names []string
+				for n := range mc.Instance {
+					if isPlainMethodName(n) {
+						names = append(names, n)
+					}
+				}
+				sort.Strings(names)
+				if len(names) == 0 {
+					continue
+				}
+				fr := Pick(r, []string{"Template", "Extlib", "Vendor"})
+				gc := &GClass{Name: cc.class}
+				var sb strings.Builder
+				fmt.Fprintf(&sb, "cv = %s\n", cc.lit)
+				for q := 0; q < 3; q++ {
+					mn := Pick(r, names)
+					pt := Pick(r, gScalarTypes)
+					gc.Methods = append(gc.Methods, &GMethod{Name: mn, Params: []GParam{{Types: []string{pt}}}, Ret: []string{Pick(r, gScalarTypes)}})
+					for ai, args := range []string{"", litForName(pt), litForName(Pick(r, gScalarTypes)), "[1]", litForName(pt) + ", " + litForName(pt)} {
+						call := "cv." + mn
+						if args != "" {
+							call += "(" + args + ")"
+						}
+						fmt.Fprintf(&sb, "x%d_%d = %s\ndbtp x%d_%d\n", q, ai, call, q, ai)
+					}
+				}
+				body := gc.toJSON(Notation{}, r, nil)
+				if r.Bool() {
+					body = strings.Replace(body, `"frame": "Builtin"`, `"frame": "`+fr+`"`, 1)
+				} else {
+					body = strings.Replace(body, `"class": "`+cc.class+`"`, `"class": "`+fr+`::`+cc.class+`"`, 1)
+				}
+				// loaded before or after the core class's own file
+				ex := map[string]string{Pick(r, []string{"aa_", "zz_"}) + strings.ToLower(fr+"_"+cc.class) + ".json": body}
+				jobs = append(jobs, &cfgCase{BSpec: CfgSpec{Extra: ex}, Source: sb.String(), Argv: Pick(r, [][]string{{}, {"-i"}}), Kind: "extra-classes", Feature: "core-short-name-in-other-frame"})
+			}
+		}
 		runCfgJobs(c, jobs, "cfg-extra")
 	}})
 
@@ -302,4 +377,47 @@ func notationFeatures(classes []*GClass) string {
 		out = append(out, k)
 	}
 	return strings.Join(dedupSorted(out), "+")
+}
+
+func isPlainMethodName(n string) bool {
+	if n == "" || n == "new" || n == "initialize" {
+		return false
+	}
+	for i, ch := range n {
+		switch {
+		case ch >= 'a' && ch <= 'z', ch == '_':
+		case ch >= '0' && ch <= '9' && i > 0:
+		case (ch == '?' || ch == '!') && i == len(n)-1:
+		default:
+			return false
+		}
+	}
+	return true
+}
+
+// genForwardRefProgram writes user classes whose superclass is defined later in
+// the file (or is the enclosing class); it returns the program and the
+// superclass's short name.
+func genForwardRefProgram(r *RNG) (string, string) {
+	supers := []string{"Document", "Record", "Widget", "Shape", "Account", "Node"}
+	subs := []string{"Invoice", "Entry", "Button", "Circle", "Savings", "Leaf"}
+	i := r.Intn(len(supers))
+	super, sub := supers[i], subs[i]
+	retLit := Pick(r, []string{"1", "\"t\"", "2.5", ":k"})
+	var sb strings.Builder
+	switch r.Intn(3) {
+	case 0: // subclass above the superclass
+		fmt.Fprintf(&sb, "class %s < %s\n  def total\n    title\n  end\nend\n\n", sub, super)
+		fmt.Fprintf(&sb, "class %s\n  def title\n    %s\n  end\n\n  def self.make\n    %s.new\n  end\nend\n\n", super, retLit, super)
+		fmt.Fprintf(&sb, "o = %s.new\ndbtp o.total\ndbtp o.title\ndbtp %s.make\no.zzext\n", sub, sub)
+	case 1: // nested class inheriting from the enclosing class
+		fmt.Fprintf(&sb, "class %s\n  class %s < %s\n    def total\n      title\n    end\n  end\n\n  def title\n    %s\n  end\nend\n\n", super, sub, super, retLit)
+		fmt.Fprintf(&sb, "o = %s::%s.new\ndbtp o.total\ndbtp o.title\n", super, sub)
+	default: // two levels, both forward
+		fmt.Fprintf(&sb, "class Deep%s < %s\n  def deep\n    total\n  end\nend\n\n", sub, sub)
+		fmt.Fprintf(&sb, "class %s < %s\n  def total\n    title\n  end\nend\n\n", sub, super)
+		fmt.Fprintf(&sb, "class %s\n  def title\n    %s\n  end\nend\n\n", super, retLit)
+		fmt.Fprintf(&sb, "o = Deep%s.new\ndbtp o.deep\ndbtp o.total\ndbtp o.title\n", sub)
+	}
+	return sb.String(), super
 }
